@@ -121,6 +121,18 @@ func scenarioC03(c *hlib.RunCtx) *hlib.Violation {
 			if t.Bool(1, 4) {
 				ln = 4096 - t.Draw(3)
 			}
+			switch t.Biased(12, 10, 12) {
+			case 1:
+				// a name no record can hold (longer than the format allows): its
+				// counts stay in memory and everybody else is unaffected
+				ln = 4097 + t.Draw(5000)
+			case 2:
+				ln = 0 // the empty name: likewise
+			}
+			if ln == 0 {
+				p.counters = append(p.counters, p.f.VerifNewCounter(""))
+				break
+			}
 			p.counters = append(p.counters, p.f.VerifNewCounter(longName(fmt.Sprintf("L%d/", i), ln)))
 		case 2:
 			// a second Counter object with the name of an earlier one
@@ -332,7 +344,7 @@ func (w *world) checkConservation(final bool) {
 				w.fail("conservation", "counter %q: after all calls returned persisted %d + pending %d != %d added", short(n), pers[n], pend[n], w.begun[n])
 				return
 			}
-			if pend[n] != 0 {
+			if pend[n] != 0 && recordable(n) {
 				for _, p := range w.procs {
 					if p.fileOpen() {
 						w.fail("nothing-pending", "counter %q: the counter file is open and all calls have returned, yet %d remain in memory (file has %d of %d)", short(n), pend[n], pers[n], w.begun[n])
@@ -343,3 +355,7 @@ func (w *world) checkConservation(final bool) {
 		}
 	}
 }
+
+// recordable reports whether the v1 format has a record for the name (1 to
+// 4096 bytes). Counts on any other name legitimately stay in memory.
+func recordable(name string) bool { return len(name) >= 1 && len(name) <= 4096 }
